@@ -157,6 +157,12 @@ func (t *Ticker) Reset(d time.Duration) {
 	if t.real != nil {
 		t.real.Reset(d)
 	}
+	if t.mt != nil {
+		mu.Lock()
+		t.mt.period, t.mt.at = d, now.Add(d)
+		mu.Unlock()
+	}
+	// (under a scheduler a ticker may fire at any scheduling point anyway)
 }
 
 func envFire(s *sched.Sched, name string, c chan time.Time, once bool, stopped *bool) {
@@ -211,6 +217,58 @@ type Timer struct {
 	real *time.Timer
 	mt   *mtimer
 	stop *bool
+	w    chan time.Time // (under a scheduler) the channel behind C, for Reset
+	f    func()         // (under a scheduler) the AfterFunc function, for Reset
+}
+
+// Reset re-arms the timer. Under a scheduler the old firing is cancelled and a new environment thread may
+// fire the timer at any later scheduling point (within the budget); durations play no part there.
+func (t *Timer) Reset(d time.Duration) bool {
+	if t.real != nil {
+		return t.real.Reset(d)
+	}
+	if t.mt != nil {
+		mu.Lock()
+		was := !t.mt.stopped
+		t.mt.stopped = false
+		t.mt.at = now.Add(d)
+		found := false
+		for _, p := range pending {
+			if p == t.mt {
+				found = true
+			}
+		}
+		if !found {
+			pending = append(pending, t.mt)
+		}
+		mu.Unlock()
+		return was
+	}
+	if t.stop != nil {
+		was := !*t.stop
+		*t.stop = true
+		s := sched.Installed()
+		if s == nil || s.IsAborting() {
+			return was
+		}
+		stopped := new(bool)
+		t.stop = stopped
+		name := "timer#" + string(rune('0'+counter(s, "vtime.timers")))
+		if t.f != nil {
+			f := t.f
+			s.GoDaemon(name, func() {
+				s.Block(name, func() bool { return s.TimerBudget > 0 && !*stopped })
+				s.TimerBudget--
+				*stopped = true
+				s.Emit("fire", name)
+				f()
+			})
+		} else if t.w != nil {
+			envFire(s, name, t.w, true, stopped)
+		}
+		return was
+	}
+	return false
 }
 
 func (t *Timer) Stop() bool {
@@ -250,7 +308,7 @@ func newTimer(d time.Duration, f func()) *Timer {
 				envFire(s, name, c, true, stopped)
 			}
 		}
-		return &Timer{C: c, stop: stopped}
+		return &Timer{C: c, stop: stopped, w: c, f: f}
 	}
 	mu.Lock()
 	if manual {
